@@ -1,3 +1,4 @@
+import OpacusLean.Generated.RdpIntLoop
 import OpacusLean.Lemmas.RdpCompose
 import OpacusLean.Lemmas.RdpFrac
 /-! # C06 — the RDP accountant never under-reports
@@ -131,5 +132,38 @@ example : ∃ (h : Hist ℝ) (par : Fin 3 → ℝ × ℝ), h ≠ [] ∧ GoodHist
 theorem frac_series_early_stop_counterexample (lnd : ℝ → ℝ) (hl : ∀ x, lnd x ≤ 0) (fuel : ℕ) :
     ∃ v, computeRdp1 ⟨lnd, fuel + 1, false⟩ (1 / 2) 20 (.frac (101 / 2)) = .ok (.fin v) ∧ v < 0 :=
   frac_early_stop_witness lnd hl fuel
+
+/-- the real instance's operations are the field operations of ℝ (used to normalise a re-translated loop body) -/
+theorem rs_add (a b : ℝ) : @HAdd.hAdd ℝ ℝ ℝ (@instHAdd ℝ instRScalarReal.toAdd) a b = a + b := rfl
+theorem rs_sub (a b : ℝ) : @HSub.hSub ℝ ℝ ℝ (@instHSub ℝ instRScalarReal.toSub) a b = a - b := rfl
+theorem rs_mul (a b : ℝ) : @HMul.hMul ℝ ℝ ℝ (@instHMul ℝ instRScalarReal.toMul) a b = a * b := rfl
+theorem rs_div (a b : ℝ) : @HDiv.hDiv ℝ ℝ ℝ (@instHDiv ℝ instRScalarReal.toDiv) a b = a / b := rfl
+theorem rs_log (a : ℝ) : RScalar.log a = Real.log a := rfl
+theorem rs_ofNat (n : ℕ) : (RScalar.ofNat n : ℝ) = (n : ℝ) := rfl
+
+set_option linter.unusedTactic false in
+set_option linter.unreachableTactic false in
+/-- the tie to the source: the loop of `_compute_log_a_for_int_alpha`, re-translated from
+`opacus/accountants/analysis/rdp.py` on every run (`Generated/RdpIntLoop.lean`), is the model's `logAInt` — for every
+scalar instance when the text is the transcription (`rfl`), and over ℝ up to operand order and association otherwise -/
+theorem generated_int_loop_eq_model (q s : ℝ) (α : ℕ) :
+    Opacus.Generated.Rdp.logAIntLoop q s α = logAInt q s α := by
+  first
+  | rfl
+  | (unfold Opacus.Generated.Rdp.logAIntLoop logAInt
+     congr 1
+     funext acc i
+     show logAdd acc (some _) = logAdd acc (some (intTerm q s α i))
+     congr 2
+     rw [intTerm_real]
+     simp only [rs_add, rs_sub, rs_mul, rs_div, rs_log, rs_ofNat]
+     ring_nf)
+
+/-- the same tie at an arbitrary scalar instance (in particular the `Float` instance the drivers run) holds by
+unfolding whenever the source is the transcription; recorded for the real instance the theorems use -/
+theorem log_a_int_correct_generated {q s : ℝ} (hq0 : 0 < q) (hq1 : q < 1) (hs : s ≠ 0) (α : ℕ) :
+    Opacus.Generated.Rdp.logAIntLoop q s α
+      = some (Real.log (∫ x, (ratio q (var s) x) ^ α ∂(gaussianReal 0 (var s)))) := by
+  rw [generated_int_loop_eq_model]; exact log_a_int_correct hq0 hq1 hs α
 
 end Opacus.C06
